@@ -240,3 +240,529 @@ Proof.
   pose proof (scan_none _ _ _ H) as Hn. rewrite Forall_forall in Hn. apply (Hn _ Hc).
   unfold fits. pose proof (align_up_least k (fst c) o' Hk Hc1 Hmod). lia.
 Qed.
+
+(* ================= regions ================= *)
+Lemma region_eqb_eq a b : region_eqb a b = true <-> a = b.
+Proof.
+  unfold region_eqb. rewrite !andb_true_iff, !Z.eqb_eq. destruct a, b; cbn. split.
+  - intros [[-> ->] ->]. reflexivity.
+  - intros H; inversion H; auto.
+Qed.
+Lemma liveB_cons r l x : liveB (r::l) x <-> in_region r x \/ liveB l x.
+Proof. unfold liveB; split.
+  - intros [d [[->|H] Hx]]; [left; exact Hx| right; eauto].
+  - intros [H|[d [H Hx]]]; [exists r; split; [left; reflexivity|exact H] | exists d; split; [right; exact H|exact Hx]].
+Qed.
+Lemma remove_region_In r l r' : In r' (remove_region r l) -> In r' l.
+Proof.
+  induction l as [|x tl IH]; cbn [remove_region]; [auto|].
+  destruct (region_eqb r x); [intros H; right; exact H|]. intros [->|H]; [left; reflexivity|right; apply IH; exact H].
+Qed.
+Lemma remove_region_liveB r l x : liveB (remove_region r l) x -> liveB l x.
+Proof. intros [d [H Hx]]. exists d. split; [eapply remove_region_In; exact H|exact Hx]. Qed.
+Lemma regions_disjoint_sym a b : regions_disjoint a b -> regions_disjoint b a.
+Proof. unfold regions_disjoint. tauto. Qed.
+Lemma remove_region_disjoint : forall l r, pairwise_disjoint l -> In r l -> Forall (regions_disjoint r) (remove_region r l).
+Proof.
+  induction l as [|x tl IH]; intros r Hp Hin; [destruct Hin|].
+  cbn [pairwise_disjoint] in Hp. destruct Hp as [Hx Hp]. cbn [remove_region].
+  destruct (region_eqb r x) eqn:E.
+  - apply region_eqb_eq in E. subst x. exact Hx.
+  - destruct Hin as [->|Hin]; [rewrite (proj2 (region_eqb_eq r r) eq_refl) in E; discriminate|].
+    constructor; [|apply IH; assumption].
+    rewrite Forall_forall in Hx. apply regions_disjoint_sym. apply Hx. exact Hin.
+Qed.
+Lemma remove_region_pairwise : forall l r, pairwise_disjoint l -> pairwise_disjoint (remove_region r l).
+Proof.
+  induction l as [|x tl IH]; intros r Hp; [exact I|].
+  cbn [pairwise_disjoint] in Hp. destruct Hp as [Hx Hp]. cbn [remove_region].
+  destruct (region_eqb r x); [exact Hp|]. cbn [pairwise_disjoint]. split; [|apply IH; exact Hp].
+  rewrite Forall_forall in *. intros y Hy. apply Hx. eapply remove_region_In; exact Hy.
+Qed.
+Lemma remove_region_Forall (P : region -> Prop) l r : Forall P l -> Forall P (remove_region r l).
+Proof. rewrite !Forall_forall. intros H y Hy. apply H. eapply remove_region_In; exact Hy. Qed.
+Lemma live_total_cons r l : live_total (r :: l) = r_size r + live_total l.
+Proof. reflexivity. Qed.
+Lemma remove_region_total : forall l r, In r l -> live_total (remove_region r l) = live_total l - r_size r.
+Proof.
+  induction l as [|x tl IH]; intros r Hin; [destruct Hin|]. cbn [remove_region].
+  destruct (region_eqb r x) eqn:E.
+  - apply region_eqb_eq in E. subst x. rewrite live_total_cons. lia.
+  - destruct Hin as [->|Hin]; [rewrite (proj2 (region_eqb_eq r r) eq_refl) in E; discriminate|].
+    rewrite !live_total_cons, IH by exact Hin. lia.
+Qed.
+Lemma find_region_spec : forall l off size x, find_region off size l = Some x -> In x l /\ r_off x = off /\ r_size x = size.
+Proof.
+  induction l as [|y tl IH]; intros off size x H; cbn [find_region] in H; [discriminate|].
+  destruct ((r_off y =? off) && (r_size y =? size)) eqn:E.
+  - inversion H; subst. apply andb_prop in E. destruct E as [E1 E2]. split; [left; reflexivity|lia].
+  - destruct (IH _ _ _ H) as [H1 H2]. split; [right; exact H1|exact H2].
+Qed.
+Lemma disjoint_bytes a b x : regions_disjoint a b -> in_region a x -> in_region b x -> False.
+Proof. unfold regions_disjoint, in_region. lia. Qed.
+Lemma bytes_disjoint a b : 0 <= r_size a -> 0 <= r_size b ->
+  (forall x, in_region a x -> ~ in_region b x) -> regions_disjoint a b.
+Proof.
+  intros Ha Hb H. unfold regions_disjoint.
+  destruct (Z_le_gt_dec (r_off a + r_size a) (r_off b)); [tauto|].
+  destruct (Z_le_gt_dec (r_off b + r_size b) (r_off a)); [tauto|].
+  destruct (Z.eq_dec (r_size a) 0); [tauto|]. destruct (Z.eq_dec (r_size b) 0); [tauto|].
+  exfalso. apply (H (Z.max (r_off a) (r_off b))); unfold in_region; lia.
+Qed.
+Lemma region_ok_weaken c c' r : c <= c' -> region_ok c r -> region_ok c' r.
+Proof. unfold region_ok. intros; intuition lia. Qed.
+
+(* ================= C04: the safety invariant is preserved ================= *)
+Theorem safe_step_SInv s o ob s' : SInv s -> safe_step s o ob s' -> SInv s'.
+Proof.
+  intros [Hd Hok Hfl Hfb Hcap] Hst. destruct Hst.
+  - (* alloc *)
+    match goal with H : s_live s' = _ |- _ => rename H into Hl end.
+    assert (Hnew : region_ok (s_cap s') (mkR off size al)) by (unfold region_ok; cbn; lia).
+    assert (Hold : forall x, freeB (s_free s) x \/ grown s s' x -> ~ liveB (s_live s) x).
+    { intros x [Hx|Hx]; [apply Hfl; exact Hx|]. intros [q [Hq Hxq]]. rewrite Forall_forall in Hok.
+      specialize (Hok _ Hq). unfold region_ok in Hok. unfold in_region in Hxq. unfold grown in Hx. lia. }
+    constructor; rewrite ?Hl.
+    + cbn [pairwise_disjoint]. split; [|exact Hd]. rewrite Forall_forall. intros q Hq.
+      rewrite Forall_forall in Hok. pose proof (Hok _ Hq) as Hq'. unfold region_ok in Hq'.
+      apply bytes_disjoint; cbn [r_size]; try lia.
+      intros x Hx Hxq. unfold in_region in Hx; cbn in Hx.
+      apply (Hold x); [auto|]. exists q. split; assumption.
+    + constructor; [exact Hnew|]. eapply Forall_impl; [|exact Hok]. intros q. apply region_ok_weaken. assumption.
+    + intros x Hx. match goal with H : forall x, freeB (s_free s') x -> _ |- _ => destruct (H x Hx) as [Hx1 Hx2] end.
+      rewrite liveB_cons. intros [Hin|Hin]; [unfold in_region in Hin; cbn in Hin; lia|]. exact (Hold x Hx1 Hin).
+    + intros x Hx. match goal with H : forall x, freeB (s_free s') x -> _ |- _ => destruct (H x Hx) as [[Hx1|Hx1] _] end.
+      * specialize (Hfb x Hx1). lia.
+      * unfold grown in Hx1. lia.
+    + lia.
+  - (* free *)
+    match goal with H : s_live s' = _ |- _ => rename H into Hl end.
+    match goal with H : s_cap s' = _ |- _ => rename H into Hc end.
+    match goal with H : In r _ |- _ => rename H into Hin end.
+    constructor; rewrite ?Hl, ?Hc.
+    + apply remove_region_pairwise; exact Hd.
+    + apply remove_region_Forall; exact Hok.
+    + intros x Hx Hlive. match goal with H : forall x, freeB (s_free s') x -> _ |- _ => destruct (H x Hx) as [Hx1|Hx1] end.
+      * apply (Hfl x Hx1). eapply remove_region_liveB; exact Hlive.
+      * destruct Hlive as [q [Hq Hxq]].
+        pose proof (remove_region_disjoint _ _ Hd Hin) as Hdis. rewrite Forall_forall in Hdis.
+        exact (disjoint_bytes _ _ _ (Hdis _ Hq) Hx1 Hxq).
+    + intros x Hx. match goal with H : forall x, freeB (s_free s') x -> _ |- _ => destruct (H x Hx) as [Hx1|Hx1] end.
+      * exact (Hfb x Hx1).
+      * rewrite Forall_forall in Hok. specialize (Hok _ Hin). unfold region_ok in Hok. unfold in_region in Hx1. lia.
+    + exact Hcap.
+  - (* grow *)
+    match goal with H : s_live s' = _ |- _ => rename H into Hl end.
+    match goal with H : s_cap s' = _ |- _ => rename H into Hc end.
+    constructor; rewrite ?Hl.
+    + exact Hd.
+    + eapply Forall_impl; [|exact Hok]. intros q. apply region_ok_weaken. lia.
+    + intros x Hx Hlive. match goal with H : forall x, freeB (s_free s') x -> _ |- _ => destruct (H x Hx) as [Hx1|Hx1] end.
+      * exact (Hfl x Hx1 Hlive).
+      * destruct Hlive as [q [Hq Hxq]]. rewrite Forall_forall in Hok. specialize (Hok _ Hq).
+        unfold region_ok in Hok. unfold in_region in Hxq. unfold grown in Hx1. lia.
+    + intros x Hx. match goal with H : forall x, freeB (s_free s') x -> _ |- _ => destruct (H x Hx) as [Hx1|Hx1] end.
+      * specialize (Hfb x Hx1). lia.
+      * unfold grown in Hx1. lia.
+    + lia.
+  - (* error *)
+    match goal with H : s_live s' = _ |- _ => rename H into Hl end.
+    constructor; rewrite ?Hl.
+    + exact Hd.
+    + eapply Forall_impl; [|exact Hok]. intros q. apply region_ok_weaken. lia.
+    + intros x Hx Hlive. match goal with H : forall x, freeB (s_free s') x -> _ |- _ => destruct (H x Hx) as [Hx1|Hx1] end.
+      * exact (Hfl x Hx1 Hlive).
+      * destruct Hlive as [q [Hq Hxq]]. rewrite Forall_forall in Hok. specialize (Hok _ Hq).
+        unfold region_ok in Hok. unfold in_region in Hxq. unfold grown in Hx1. lia.
+    + intros x Hx. match goal with H : forall x, freeB (s_free s') x -> _ |- _ => destruct (H x Hx) as [Hx1|Hx1] end.
+      * specialize (Hfb x Hx1). lia.
+      * unfold grown in Hx1. lia.
+    + lia.
+Qed.
+
+Theorem safe_trace_SInv s tr s' : SInv s -> safe_trace s tr s' -> SInv s'.
+Proof. intros Hi Ht. induction Ht as [|s o r s1 tr s2 Hst _ IH]; [exact Hi|]. apply IH. eapply safe_step_SInv; eassumption. Qed.
+
+(* ================= C12: the first-fit spec ================= *)
+Lemma scan_in_bounds cs size a s off cs' cap :
+  bounded cs cap -> scan cs size a = Some (s, off, cs') ->
+  0 <= s /\ off + size <= cap /\ (0 <= size -> s <= off -> bounded cs' cap).
+Proof.
+  intros Hb H. destruct (scan_some _ _ _ _ _ _ H) as [pre [e [suf [-> [_ [_ [Hfit ->]]]]]]].
+  unfold bounded in *. rewrite Forall_app in Hb. destruct Hb as [Hb1 Hb2]. inversion Hb2 as [|? ? Hc Hb3]; subst.
+  cbn [fst snd] in Hc. split; [lia|]. split; [lia|]. intros Hsz Hso.
+  rewrite Forall_app. split; [exact Hb1|]. destruct (e - (off + size) =? 0); [exact Hb3|].
+  constructor; [cbn [fst snd]; lia|exact Hb3].
+Qed.
+
+Lemma is_pow2_pos al : is_pow2 al -> 0 < al.
+Proof. intros [k [Hk ->]]. apply Z.pow_pos_nonneg; lia. Qed.
+
+Lemma FInv_free_bound s : FInv s -> forall x, freeB (s_free s) x -> 0 <= x < s_cap s.
+Proof.
+  intros Hi x [c [Hc Hx]]. pose proof (fi_bounded _ Hi) as Hb. unfold bounded in Hb. rewrite Forall_forall in Hb.
+  specialize (Hb _ Hc). unfold inb in Hx. lia.
+Qed.
+
+Lemma FInv_SInv s : FInv s -> SInv s.
+Proof.
+  intros Hi. constructor.
+  - apply Hi. - apply Hi. - apply Hi. - apply FInv_free_bound; exact Hi. - apply Hi.
+Qed.
+
+Lemma live_not_grown s x g : FInv s -> s_cap s <= x < s_cap s + g -> ~ liveB (s_live s) x.
+Proof.
+  intros Hi Hx [q [Hq Hxq]]. pose proof (fi_live_ok _ Hi) as Hok. rewrite Forall_forall in Hok.
+  specialize (Hok _ Hq). unfold region_ok in Hok. unfold in_region in Hxq. lia.
+Qed.
+
+Theorem ff_step_FInv s o ob s' : FInv s -> ff_step s o ob s' -> FInv s'.
+Proof.
+  intros Hi Hst. destruct Hst as [s size al g s0 off F' Hsz Hal Hg Hgrow Hscan | s al off Hal Hmod Hoff | s r Hin | s n Hn].
+  - (* alloc *)
+    destruct Hal as [k [Hk ->]].
+    destruct (grow_chunks_props (s_free s) (s_cap s) g Hg (fi_cap _ Hi) (fi_nsep _ Hi) (fi_bounded _ Hi)) as [G1 [G2 [G3 G4]]].
+    destruct (scan_in_bounds _ _ _ _ _ _ _ G2 Hscan) as [B1 [B2 B3]].
+    assert (Hsz0 : 0 <= size) by lia.
+    pose proof (fun x => scan_bytes _ _ k _ _ _ x Hk Hsz0 G1 Hscan) as Hsb.
+    destruct (Hsb 0) as [S1 [S2 [S3 _]]].
+    pose proof (align_up_spec k s0 Hk) as [_ Hmod]. rewrite <- S2 in Hmod.
+    assert (Hp : 0 < 2^k) by (apply Z.pow_pos_nonneg; lia).
+    assert (Hold : forall x, freeB (grow_chunks (s_free s) (s_cap s) g) x -> ~ liveB (s_live s) x).
+    { intros x Hx. apply G4 in Hx. destruct Hx as [Hx|Hx]; [apply (fi_free_live _ Hi); exact Hx|eapply live_not_grown; eassumption]. }
+    constructor; cbn [s_cap s_free s_live s_lost].
+    + eapply scan_nsep; [exact Hk| |exact G1|exact Hscan]. lia.
+    + apply B3; lia.
+    + pose proof (fi_cap _ Hi). lia.
+    + pose proof (fi_lost _ Hi). lia.
+    + constructor; [unfold region_ok; cbn; lia|].
+      eapply Forall_impl; [|exact (fi_live_ok _ Hi)]. intros q. apply region_ok_weaken. lia.
+    + cbn [pairwise_disjoint]. split; [|exact (fi_disj _ Hi)]. rewrite Forall_forall. intros q Hq.
+      pose proof (fi_live_ok _ Hi) as Hok. rewrite Forall_forall in Hok. pose proof (Hok _ Hq) as Hq'. unfold region_ok in Hq'.
+      apply bytes_disjoint; cbn [r_size]; try lia.
+      intros x Hx Hxq. unfold in_region in Hx; cbn in Hx.
+      apply (Hold x); [apply S3; lia|]. exists q. split; assumption.
+    + intros x Hx. destruct (Hsb x) as [_ [_ [_ Hiff]]]. apply Hiff in Hx. destruct Hx as [Hx1 Hx2].
+      rewrite liveB_cons. intros [Hin|Hin]; [unfold in_region in Hin; cbn in Hin; lia|]. exact (Hold x Hx1 Hin).
+    + rewrite (scan_total _ _ _ _ _ _ Hscan), G3, live_total_cons. cbn [r_size]. pose proof (fi_account _ Hi). lia.
+  - (* zero-size alloc *)
+    constructor; cbn [s_cap s_free s_live s_lost]; try apply Hi.
+    + constructor; [unfold region_ok; cbn; pose proof (is_pow2_pos _ Hal); lia|apply Hi].
+    + cbn [pairwise_disjoint]. split; [|apply Hi]. rewrite Forall_forall. intros q _. unfold regions_disjoint. cbn. lia.
+    + intros x Hx. rewrite liveB_cons. intros [Hin|Hin]; [unfold in_region in Hin; cbn in Hin; lia|].
+      exact (fi_free_live _ Hi x Hx Hin).
+  - (* free *)
+    pose proof (fi_live_ok _ Hi) as Hok. rewrite Forall_forall in Hok. pose proof (Hok _ Hin) as Hr. unfold region_ok in Hr.
+    assert (Hdisj : forall x, inb x (r_off r, r_off r + r_size r) -> ~ freeB (s_free s) x).
+    { intros x Hx Hf. apply (fi_free_live _ Hi x Hf). exists r. split; [exact Hin|]. unfold inb in Hx. cbn in Hx. exact Hx. }
+    constructor; cbn [s_cap s_free s_live s_lost]; try apply Hi.
+    + apply add_chunk_nsep; apply Hi.
+    + apply add_chunk_bounded; cbn [fst snd]; try lia. apply Hi.
+    + apply remove_region_Forall; apply Hi.
+    + apply remove_region_pairwise; apply Hi.
+    + intros x Hx Hlive. apply add_chunk_bytes in Hx; [|apply Hi]. destruct Hx as [Hx|Hx].
+      * destruct Hlive as [q [Hq Hxq]].
+        pose proof (remove_region_disjoint _ _ (fi_disj _ Hi) Hin) as Hdis. rewrite Forall_forall in Hdis.
+        unfold inb in Hx; cbn in Hx. exact (disjoint_bytes _ _ _ (Hdis _ Hq) Hx Hxq).
+      * apply (fi_free_live _ Hi x Hx). eapply remove_region_liveB; exact Hlive.
+    + rewrite add_chunk_total by (try apply Hi; exact Hdisj). cbn [fst snd].
+      rewrite remove_region_total by exact Hin. pose proof (fi_account _ Hi). lia.
+  - (* grow *)
+    destruct (grow_chunks_props (s_free s) (s_cap s) n Hn (fi_cap _ Hi) (fi_nsep _ Hi) (fi_bounded _ Hi)) as [G1 [G2 [G3 G4]]].
+    constructor; cbn [s_cap s_free s_live s_lost]; try apply Hi; try assumption.
+    + pose proof (fi_cap _ Hi). lia.
+    + eapply Forall_impl; [|exact (fi_live_ok _ Hi)]. intros q. apply region_ok_weaken. lia.
+    + intros x Hx. apply G4 in Hx. destruct Hx as [Hx|Hx]; [apply (fi_free_live _ Hi); exact Hx|eapply live_not_grown; eassumption].
+    + rewrite G3. pose proof (fi_account _ Hi). lia.
+Qed.
+
+Theorem ff_trace_FInv s tr s' : FInv s -> ff_trace s tr s' -> FInv s'.
+Proof. intros Hi Ht. induction Ht as [|s o r s1 tr s2 Hst _ IH]; [exact Hi|]. apply IH. eapply ff_step_FInv; eassumption. Qed.
+
+Lemma init_FInv cap : 0 <= cap -> FInv (init_state cap).
+Proof.
+  intros Hc. unfold init_state. constructor; cbn [s_cap s_free s_live s_lost].
+  - apply add_chunk_nsep. exact I.
+  - apply add_chunk_bounded; cbn; try lia. constructor.
+  - exact Hc. - lia. - constructor. - exact I.
+  - intros x _ [q [[] _]].
+  - rewrite add_chunk_total; [cbn; lia|exact I|]. intros x _ H. exact (freeB_nil _ H).
+Qed.
+
+(* every first-fit step is a safe step: the C12 spec refines the C04 spec *)
+Theorem ff_step_safe s o ob s' : FInv s -> ff_step s o ob s' -> safe_step s o ob s'.
+Proof.
+  intros Hi Hst. pose proof (ff_step_FInv _ _ _ _ Hi Hst) as Hi'.
+  destruct Hst as [s size al g s0 off F' Hsz Hal Hg Hgrow Hscan | s al off Hal Hmod Hoff | s r Hin | s n Hn].
+  - pose proof Hal as [k [Hk ->]].
+    destruct (grow_chunks_props (s_free s) (s_cap s) g Hg (fi_cap _ Hi) (fi_nsep _ Hi) (fi_bounded _ Hi)) as [G1 [G2 [G3 G4]]].
+    destruct (scan_in_bounds _ _ _ _ _ _ _ G2 Hscan) as [B1 [B2 B3]].
+    assert (Hsz0 : 0 <= size) by lia.
+    pose proof (fun x => scan_bytes _ _ k _ _ _ x Hk Hsz0 G1 Hscan) as Hsb.
+    destruct (Hsb 0) as [S1 [S2 [S3 _]]].
+    pose proof (align_up_spec k s0 Hk) as [_ Hmod]. rewrite <- S2 in Hmod.
+    assert (Hp : 0 < 2^k) by (apply Z.pow_pos_nonneg; lia).
+    apply Safe_alloc; cbn [s_cap s_free s_live s_lost]; try lia; try reflexivity.
+    + intros x Hx. assert (Hf : freeB (grow_chunks (s_free s) (s_cap s) g) x) by (apply S3; lia).
+      apply G4 in Hf. unfold grown; cbn [s_cap]. exact Hf.
+    + intros x Hx. destruct (Hsb x) as [_ [_ [_ Hiff]]]. apply Hiff in Hx. destruct Hx as [Hx1 Hx2].
+      apply G4 in Hx1. unfold grown; cbn [s_cap]. split; [exact Hx1|lia].
+  - apply Safe_alloc; cbn [s_cap s_free s_live s_lost]; try lia; try reflexivity; try assumption.
+    + apply is_pow2_pos; exact Hal.
+    + intros x Hx. split; [left; exact Hx|lia].
+  - apply Safe_free; cbn [s_cap s_free s_live s_lost]; try reflexivity; try assumption.
+    intros x Hx. apply add_chunk_bytes in Hx; [|apply Hi]. unfold inb, in_region in *. cbn [fst snd] in Hx. tauto.
+  - destruct (grow_chunks_props (s_free s) (s_cap s) n Hn (fi_cap _ Hi) (fi_nsep _ Hi) (fi_bounded _ Hi)) as [G1 [G2 [G3 G4]]].
+    apply Safe_grow; cbn [s_cap s_free s_live s_lost]; try reflexivity; try assumption.
+    intros x Hx. apply G4 in Hx. unfold grown; cbn [s_cap]. exact Hx.
+Qed.
+
+(* ---- the clauses of C12, for every step of every trace ---- *)
+Definition free_or_new (s s' : sst) (x : Z) : Prop := freeB (s_free s) x \/ grown s s' x.
+
+Theorem ff_lowest_fit s size al off s' :
+  FInv s -> 0 < size -> ff_step s (OAlloc size al) (RetOff off) s' ->
+  fitsAt (free_or_new s s') al size off /\
+  (forall o', fitsAt (free_or_new s s') al size o' -> off <= o') /\
+  (s_cap s < s_cap s' -> forall o', ~ fitsAt (freeB (s_free s)) al size o') /\
+  s_cap s <= s_cap s'.
+Proof.
+  intros Hi Hsz Hst. inversion Hst as [s1 size1 al1 g s0 off1 F' Hsz1 Hal Hg Hgrow Hscan | | |]; subst; [|lia].
+  destruct Hal as [k [Hk ->]].
+  destruct (grow_chunks_props (s_free s) (s_cap s) g Hg (fi_cap _ Hi) (fi_nsep _ Hi) (fi_bounded _ Hi)) as [G1 [G2 [G3 G4]]].
+  destruct (scan_lowest _ _ k _ _ _ Hk Hsz G1 Hscan) as [L1 L2].
+  assert (Heq : forall o', fitsAt (free_or_new s (mkS (s_cap s + g) F' (mkR off size (2^k) :: s_live s) (s_lost s + (off - s0)))) (2^k) size o' <->
+                          fitsAt (freeB (grow_chunks (s_free s) (s_cap s) g)) (2^k) size o').
+  { intros o'. unfold fitsAt, free_or_new, grown; cbn [s_cap]. split; intros [A B]; (split; [exact A|]); intros x Hx; apply G4; apply B; exact Hx. }
+  split; [apply Heq; exact L1|]. split; [intros o' Ho'; apply L2; apply Heq; exact Ho'|]. cbn [s_cap]. split; [|lia].
+  intros Hlt. apply (scan_none_nofit _ _ k Hk Hsz (fi_nsep _ Hi)). apply Hgrow. lia.
+Qed.
+
+Theorem ff_free_exact s off size ob s' :
+  FInv s -> ff_step s (OFree off size) ob s' ->
+  ob = RetUnit /\ s_cap s' = s_cap s /\
+  forall x, freeB (s_free s') x <-> freeB (s_free s) x \/ off <= x < off + size.
+Proof.
+  intros Hi Hst. inversion Hst; subst. split; [reflexivity|]. split; [reflexivity|]. cbn [s_free].
+  intros x. rewrite add_chunk_bytes by apply Hi. unfold inb; cbn [fst snd]. tauto.
+Qed.
+
+Theorem ff_never_errs s o s' : ~ ff_step s o RetErr s'.
+Proof. intros H; inversion H. Qed.
+
+Theorem ff_free_enabled s r : In r (s_live s) -> exists s', ff_step s (OFree (r_off r) (r_size r)) RetUnit s'.
+Proof. intros H. eexists. apply FF_free. exact H. Qed.
+
+(* coalescing: two adjacent live regions, freed in either order, serve one request
+   spanning both without growth and not above the lower one *)
+Theorem ff_coalesce s a b c s1 s2 off s3 ob1 ob2 :
+  FInv s -> a < b -> b < c ->
+  ff_step s (OFree a (b - a)) ob1 s1 -> ff_step s1 (OFree b (c - b)) ob2 s2 ->
+  ff_step s2 (OAlloc (c - a) 1) (RetOff off) s3 ->
+  off <= a /\ s_cap s3 = s_cap s.
+Proof.
+  intros Hi Hab Hbc H1 H2 H3.
+  pose proof (ff_step_FInv _ _ _ _ Hi H1) as Hi1. pose proof (ff_step_FInv _ _ _ _ Hi1 H2) as Hi2.
+  destruct (ff_free_exact _ _ _ _ _ Hi H1) as [_ [C1 E1]]. destruct (ff_free_exact _ _ _ _ _ Hi1 H2) as [_ [C2 E2]].
+  assert (Hfit : fitsAt (freeB (s_free s2)) 1 (c - a) a).
+  { split; [apply Z.mod_1_r|]. intros x Hx. apply E2. destruct (Z_lt_ge_dec x b); [left; apply E1; right; lia|right; lia]. }
+  assert (Hca : 0 < c - a) by lia.
+  destruct (ff_lowest_fit _ _ _ _ _ Hi2 Hca H3) as [_ [L2 [L3 L4]]].
+  split.
+  - apply L2. destruct Hfit as [A B]. split; [exact A|]. intros x Hx. left. apply B. exact Hx.
+  - destruct (Z_lt_ge_dec (s_cap s2) (s_cap s3)) as [Hlt|Hge]; [destruct (L3 Hlt a Hfit)|].
+    inversion H3; subst; cbn [s_cap] in *; lia.
+Qed.
+
+(* a request can always be served (spec-level progress) *)
+Lemma grow_rec_last : forall cs cap g, 0 < g -> wf cs -> bounded cs cap -> 0 <= cap ->
+  exists sl, 0 <= sl <= cap /\ In (sl, cap + g) (grow_rec cs cap g).
+Proof.
+  induction cs as [|[s e] tl IH]; intros cap g Hg Hwf Hb Hc.
+  - exists cap. split; [lia|]. cbn. auto.
+  - inversion Hb as [|? ? Hce Hbt]; subst. cbn [fst snd] in Hce.
+    inversion Hwf as [|? ? Hse Hwt]; subst. cbn [fst snd] in Hse. destruct tl as [|d tl'].
+    + cbn [grow_rec]. destruct (e =? cap) eqn:E.
+      * exists s. split; [|left; reflexivity]. apply Z.eqb_eq in E. lia.
+      * exists cap. split; [lia|]. right; left; reflexivity.
+    + rewrite grow_rec_cons2. destruct (IH cap g Hg Hwt Hbt Hc) as [sl [H1 H2]]. exists sl. split; [exact H1|right; exact H2].
+Qed.
+
+Theorem ff_alloc_enabled s size al : FInv s -> 0 < size -> is_pow2 al ->
+  exists off s', ff_step s (OAlloc size al) (RetOff off) s'.
+Proof.
+  intros Hi Hsz Hal. pose proof Hal as [k [Hk Hek]].
+  destruct (scan (s_free s) size al) as [[[s0 off] F']|] eqn:E.
+  - exists off. eexists. apply (FF_alloc s size al 0 s0 off F'); try assumption; try lia.
+  - set (g := size + al).
+    assert (Hg : 0 < g) by (pose proof (is_pow2_pos _ Hal); lia).
+    destruct (grow_rec_last (s_free s) (s_cap s) g Hg (nsep_wf _ (fi_nsep _ Hi)) (fi_bounded _ Hi) (fi_cap _ Hi)) as [sl [Hsl Hin]].
+    destruct (scan (grow_chunks (s_free s) (s_cap s) g) size al) as [[[s0 off] F']|] eqn:E2.
+    + exists off. eexists. apply (FF_alloc s size al g s0 off F'); try assumption; try lia. intros _. exact E.
+    + exfalso. pose proof (scan_none _ _ _ E2) as Hn. rewrite Forall_forall in Hn.
+      unfold grow_chunks in Hn. replace (g <=? 0) with false in Hn by lia.
+      apply (Hn _ Hin). unfold fits. cbn [fst snd]. subst al. pose proof (align_up_spec k sl Hk). lia.
+Qed.
+
+(* ================= soundness of the conformance checkers ================= *)
+Lemma chunks_eqb_eq : forall a b, chunks_eqb a b = true -> a = b.
+Proof.
+  induction a as [|[s e] a IH]; intros [|[s' e'] b] H; cbn [chunks_eqb] in H; try discriminate; [reflexivity|].
+  apply andb_prop in H. destruct H as [H1 H2]. unfold chunk_eqb in H1. cbn [fst snd] in H1.
+  apply andb_prop in H1. destruct H1 as [A B]. apply Z.eqb_eq in A, B. subst. f_equal. apply IH; exact H2.
+Qed.
+Lemma insideb_sound cs o e : insideb cs o e = true -> forall x, o <= x < e -> freeB cs x.
+Proof.
+  unfold insideb. rewrite existsb_exists. intros [c [Hc H]] x Hx. apply andb_prop in H. destruct H as [A B].
+  exists c. split; [exact Hc|]. unfold inb. lia.
+Qed.
+Lemma subsetb_sound a b : subsetb a b = true -> forall x, freeB a x -> freeB b x.
+Proof.
+  unfold subsetb. rewrite forallb_forall. intros H x [c [Hc Hx]]. specialize (H _ Hc).
+  apply orb_prop in H. destruct H as [H|H]; [unfold inb in Hx; lia|].
+  apply (insideb_sound _ _ _ H). exact Hx.
+Qed.
+Lemma disjointb_sound cs o e : disjointb cs o e = true -> forall x, freeB cs x -> ~ (o <= x < e).
+Proof.
+  unfold disjointb. rewrite forallb_forall. intros H x [c [Hc Hx]] Hoe. specialize (H _ Hc).
+  unfold inb in Hx. repeat (apply orb_prop in H; destruct H as [H|H]); lia.
+Qed.
+Lemma pow2b_sound a : pow2b a = true -> is_pow2 a.
+Proof.
+  unfold pow2b. intros H. apply andb_prop in H. destruct H as [A B]. exists (Z.log2 a).
+  split; [apply Z.log2_nonneg|lia].
+Qed.
+
+Theorem safe_stepb_sound pre live o ob post lost lost' :
+  safe_stepb pre live o ob post = true ->
+  safe_step (abs pre live lost) o ob (abs post (live_after live o ob) lost').
+Proof.
+  destruct pre as [cap raw], post as [cap' raw']. unfold safe_stepb, abs. cbn [fst snd].
+  pose proof (norm_nsep raw) as HnF.
+  assert (HF1 : forall x, freeB (add_chunk (norm raw) (cap, cap')) x <-> (cap <= x < cap') \/ freeB (norm raw) x).
+  { intros x. rewrite add_chunk_bytes by exact HnF. unfold inb; cbn [fst snd]. tauto. }
+  destruct o as [size al|off size|n]; destruct ob as [off'| |]; try discriminate.
+  - (* alloc *)
+    intros H. repeat (apply andb_prop in H; destruct H as [H ?]).
+    repeat match goal with H : (_ <=? _) = true |- _ => apply Z.leb_le in H | H : (_ <? _) = true |- _ => apply Z.ltb_lt in H | H : (_ =? _) = true |- _ => apply Z.eqb_eq in H end.
+    apply Safe_alloc; cbn [s_cap s_free s_live live_after]; try assumption; try reflexivity.
+    + intros x Hx. match goal with H : (_ || insideb _ _ _) = true |- _ => apply orb_prop in H; destruct H as [Hz|Hins] end.
+      * apply Z.eqb_eq in Hz. lia.
+      * pose proof (insideb_sound _ _ _ Hins x Hx) as Hf. apply HF1 in Hf. unfold grown; cbn [s_cap]. tauto.
+    + intros x Hx. split.
+      * match goal with H : subsetb _ _ = true |- _ => pose proof (subsetb_sound _ _ H x Hx) as Hf end.
+        apply HF1 in Hf. unfold grown; cbn [s_cap]. tauto.
+      * match goal with H : disjointb _ _ _ = true |- _ => exact (disjointb_sound _ _ _ H x Hx) end.
+  - (* alloc, error *)
+    intros H. apply andb_prop in H. destruct H as [A B]. apply Z.leb_le in A.
+    apply Safe_err; cbn [s_cap s_free s_live live_after]; try assumption; try reflexivity.
+    intros x Hx. pose proof (subsetb_sound _ _ B x Hx) as Hf. apply HF1 in Hf. unfold grown; cbn [s_cap]. tauto.
+  - (* free *)
+    cbn [live_after]. destruct (find_region off size live) as [q|] eqn:E; [|discriminate].
+    destruct (find_region_spec _ _ _ _ E) as [Hin [Ho Hs]]. subst off size.
+    intros H. apply andb_prop in H. destruct H as [A B]. apply Z.eqb_eq in A.
+    apply Safe_free; cbn [s_cap s_free s_live]; try assumption; try reflexivity.
+    intros x Hx. pose proof (subsetb_sound _ _ B x Hx) as Hf. apply add_chunk_bytes in Hf; [|exact HnF].
+    unfold inb, in_region in *. cbn [fst snd] in Hf. tauto.
+  - (* free, error *)
+    intros H. apply andb_prop in H. destruct H as [A B]. apply Z.leb_le in A.
+    apply Safe_err; cbn [s_cap s_free s_live live_after]; try assumption; try reflexivity.
+    intros x Hx. pose proof (subsetb_sound _ _ B x Hx) as Hf. apply HF1 in Hf. unfold grown; cbn [s_cap]. tauto.
+  - (* grow *)
+    intros H. apply andb_prop in H. destruct H as [H B]. apply andb_prop in H. destruct H as [A1 A2].
+    apply Z.leb_le in A1. apply Z.eqb_eq in A2.
+    apply Safe_grow; cbn [s_cap s_free s_live live_after]; try assumption; try reflexivity.
+    intros x Hx. pose proof (subsetb_sound _ _ B x Hx) as Hf. apply HF1 in Hf. unfold grown; cbn [s_cap]. tauto.
+  - (* grow, error *)
+    intros H. apply andb_prop in H. destruct H as [A B]. apply Z.leb_le in A.
+    apply Safe_err; cbn [s_cap s_free s_live live_after]; try assumption; try reflexivity.
+    intros x Hx. pose proof (subsetb_sound _ _ B x Hx) as Hf. apply HF1 in Hf. unfold grown; cbn [s_cap]. tauto.
+Qed.
+
+Theorem ff_stepb_sound pre live o ob post lost :
+  ff_stepb pre live o ob post = true ->
+  ff_step (abs pre live lost) o ob (abs post (live_after live o ob) (lost_after pre lost o ob post)).
+Proof.
+  destruct pre as [cap raw], post as [cap' raw']. unfold ff_stepb, abs, lost_after. cbn [fst snd].
+  destruct o as [size al|off size|n]; destruct ob as [off'| |]; try discriminate.
+  - (* alloc *)
+    intros H. apply andb_prop in H. destruct H as [Hp H]. apply pow2b_sound in Hp.
+    destruct (size =? 0) eqn:Ez.
+    + apply Z.eqb_eq in Ez. subst size.
+      repeat (apply andb_prop in H; destruct H as [H ?]).
+      repeat match goal with H : (_ <=? _) = true |- _ => apply Z.leb_le in H | H : (_ =? _) = true |- _ => apply Z.eqb_eq in H end.
+      match goal with H : chunks_eqb _ _ = true |- _ => apply chunks_eqb_eq in H; rewrite H end.
+      subst cap'. cbn [live_after].
+      apply (FF_alloc0 (mkS cap (norm raw) live lost) al off'); cbn [s_cap]; try assumption; lia.
+    + repeat (apply andb_prop in H; destruct H as [H ?]).
+      destruct (scan (grow_chunks (norm raw) cap (cap' - cap)) size al) as [[[s0 o'] G]|] eqn:Es; [|discriminate].
+      match goal with H : (_ && chunks_eqb _ _) = true |- _ => apply andb_prop in H; destruct H as [Ho He] end.
+      apply Z.eqb_eq in Ho. subst o'. apply chunks_eqb_eq in He. rewrite He.
+      repeat match goal with H : (_ <=? _) = true |- _ => apply Z.leb_le in H | H : (_ <? _) = true |- _ => apply Z.ltb_lt in H end.
+      cbn [live_after].
+      replace cap' with (cap + (cap' - cap)) at 1 by lia.
+      apply (FF_alloc (mkS cap (norm raw) live lost) size al (cap' - cap) s0 off' G); cbn [s_cap s_free]; try assumption; try lia.
+      intros Hg. match goal with H : (_ || _) = true |- _ => apply orb_prop in H; destruct H as [Hz|Hsc] end.
+      * apply Z.eqb_eq in Hz. lia.
+      * destruct (scan (norm raw) size al); [discriminate|reflexivity].
+  - (* free *)
+    cbn [live_after]. destruct (find_region off size live) as [q|] eqn:E; [|discriminate].
+    destruct (find_region_spec _ _ _ _ E) as [Hin [Ho Hs]]. subst off size.
+    intros H. apply andb_prop in H. destruct H as [A B]. apply Z.eqb_eq in A. apply chunks_eqb_eq in B.
+    rewrite A, B. apply (FF_free (mkS cap (norm raw) live lost) q). exact Hin.
+  - (* grow *)
+    intros H. apply andb_prop in H. destruct H as [H B]. apply andb_prop in H. destruct H as [A1 A2].
+    apply Z.leb_le in A1. apply Z.eqb_eq in A2. apply chunks_eqb_eq in B. rewrite A2, B. cbn [live_after].
+    apply (FF_grow (mkS cap (norm raw) live lost) n). exact A1.
+Qed.
+
+(* ================= whole observed walks ================= *)
+Definition ops_of (steps : list ostep) : list (op * obs) := map (fun st => (o_op st, o_obs st)) steps.
+
+Lemma check_walk_ff : forall steps pre live lost n,
+  check_walk ff_stepb pre live n steps = None ->
+  exists post live' lost', ff_trace (abs pre live lost) (ops_of steps) (abs post live' lost').
+Proof.
+  induction steps as [|st tl IH]; intros pre live lost n H; cbn [check_walk] in H.
+  - exists pre, live, lost. constructor.
+  - destruct (ff_stepb pre live (o_op st) (o_obs st) (o_post st)) eqn:E; [|discriminate].
+    destruct (IH _ _ (lost_after pre lost (o_op st) (o_obs st) (o_post st)) _ H) as [post [live' [lost' Ht]]].
+    exists post, live', lost'. cbn [ops_of map]. econstructor; [|exact Ht].
+    apply ff_stepb_sound. exact E.
+Qed.
+Lemma check_walk_safe : forall steps pre live lost n,
+  check_walk safe_stepb pre live n steps = None ->
+  exists post live', safe_trace (abs pre live lost) (ops_of steps) (abs post live' lost).
+Proof.
+  induction steps as [|st tl IH]; intros pre live lost n H; cbn [check_walk] in H.
+  - exists pre, live. constructor.
+  - destruct (safe_stepb pre live (o_op st) (o_obs st) (o_post st)) eqn:E; [|discriminate].
+    destruct (IH _ _ lost _ H) as [post [live' Ht]].
+    exists post, live'. cbn [ops_of map]. econstructor; [|exact Ht].
+    apply safe_stepb_sound. exact E.
+Qed.
+
+Lemma init_okb_sound i : init_okb i = true -> abs i [] 0 = init_state (fst i) /\ 0 <= fst i.
+Proof.
+  unfold init_okb. intros H. apply andb_prop in H. destruct H as [A B]. apply Z.leb_le in A. apply chunks_eqb_eq in B.
+  split; [|exact A]. unfold abs, init_state. rewrite B. reflexivity.
+Qed.
+
+(* An accepted walk is a trace of the first-fit spec from a fresh buffer, so every
+   state along it satisfies the C12 invariant and every step the C12 clauses. *)
+Theorem walk_ff_sound w : walk_ff w = None ->
+  exists s', ff_trace (init_state (fst (w_init w))) (ops_of (w_steps w)) s' /\ FInv s'.
+Proof.
+  unfold walk_ff. destruct (init_okb (w_init w)) eqn:E; [|discriminate]. intros H.
+  destruct (init_okb_sound _ E) as [Hi Hc].
+  destruct (check_walk_ff _ _ _ 0 _ H) as [post [live' [lost' Ht]]]. rewrite Hi in Ht.
+  eexists. split; [exact Ht|]. eapply ff_trace_FInv; [|exact Ht]. apply init_FInv. exact Hc.
+Qed.
+Theorem walk_safe_sound w : walk_safe w = None ->
+  exists s', safe_trace (init_state (fst (w_init w))) (ops_of (w_steps w)) s' /\ SInv s'.
+Proof.
+  unfold walk_safe. destruct (init_okb (w_init w)) eqn:E; [|discriminate]. intros H.
+  destruct (init_okb_sound _ E) as [Hi Hc].
+  destruct (check_walk_safe _ _ _ 0 _ H) as [post [live' Ht]]. rewrite Hi in Ht.
+  eexists. split; [exact Ht|]. eapply safe_trace_SInv; [|exact Ht]. apply FInv_SInv. apply init_FInv. exact Hc.
+Qed.
